@@ -133,7 +133,7 @@ def main(argv=None):
             undecided.append({"obligation": rep["target"], "why": "contract-target-missing"})
             continue
         if rep["error"]:
-            if getattr(pack, "REPLAY_UNKNOWN", False):
+            if getattr(pack, "REPLAY_UNKNOWN", True):
                 # the engine/pack model broke on this (changed) function: only a natively reproduced failing input is a violation
                 short = rep["target"].split("/")[-1]
                 pseudo = {"id": f"{prop}/{short}/out-of-subset", "kind": "out-of-subset", "status": "unknown", "vcs": 0, "seconds": 0.0,
@@ -147,7 +147,7 @@ def main(argv=None):
             engine_errors.append({"function": rep["target"], "error": rep["error"]})
             continue
         if rep["out_of_subset"]:
-            if getattr(pack, "REPLAY_UNKNOWN", False):
+            if getattr(pack, "REPLAY_UNKNOWN", True):
                 # the function left the verifiable subset: only a natively reproduced failing input makes this a violation
                 short = rep["target"].split("/")[-1]
                 pseudo = {"id": f"{prop}/{short}/out-of-subset", "kind": "out-of-subset", "status": "unknown", "vcs": 0, "seconds": 0.0,
@@ -228,7 +228,7 @@ def main(argv=None):
                 discharged += 1
             continue
         if o["status"] == "unknown":
-            if getattr(pack, "REPLAY_UNKNOWN", False):
+            if getattr(pack, "REPLAY_UNKNOWN", True):
                 # DESIGN 2.5.3(c): native small-scope search on the real function as a last witness finder (opt-in per pack);
                 # only a natively reproduced failing input turns `unknown` into a violation
                 rp = do_replay(prop, o, repo)
